@@ -2,8 +2,8 @@ SPECIFICATION Spec
 CONSTANTS
   EB = 4
   FB = 5
-  XEB = 7
-  XFB = 8
+  XEB = 6
+  XFB = 6
   FracMode = "all"
   Origins = {"native", "foreign"}
   MaxTrips = 2
